@@ -90,7 +90,7 @@ proof fn lemma_export_header(p: V5, b: Seq<u8>)
     assert(v5_header_enc(p.header) =~= e.subrange(0, 24));
     assert(enc16(5) + b.subrange(0, 22) =~= e.subrange(0, 24));
     lemma_v5_header_enc_inj(v5_header_dec(b, 0), p.header);
-    assert(be16(b, 0) == v5_header_dec(b, 0).count) by { reveal(v5_header_dec); }
+    lemma_v5_header_dec_fields(b, 0);
     assert(b.subrange(22, b.len() as int) =~= v5_records_enc(p.flowsets@));
 }
 proof fn lemma_export_record(s: Seq<FlowSet>, b: Seq<u8>, k: int)
@@ -104,9 +104,8 @@ proof fn lemma_export_record(s: Seq<FlowSet>, b: Seq<u8>, k: int)
     lemma_recs_at(s, k);
     assert(b.subrange(o, o + 48) =~= v5_records_enc(s).subrange(48 * k, 48 * k + 48));
     assert(v5_record_enc(d) == v5_record_enc(s[k]));
-    assert(d.protocol_type == proto_of(d.protocol_number)) by { reveal(v5_record_dec); }
+    lemma_v5_record_dec_fields(b, o);
     lemma_rec_byte38(s[k]);
-    assert(d.protocol_number == b[o + 38]) by { reveal(v5_record_dec); }
     assert(b[o + 38] == b.subrange(o, o + 48)[38]);
     lemma_v5_record_enc_inj(d, s[k]);
 }
@@ -151,12 +150,12 @@ proof fn lemma_rec_byte38(r: FlowSet) ensures v5_record_enc(r).len() == 48, v5_r
     lemma_v5_record_enc_dec(v5_record_enc(r), 0);
     let d = v5_record_dec(v5_record_enc(r), 0);
     assert(v5_record_enc(r).subrange(0, 48) =~= v5_record_enc(r));
-    assert(d.protocol_type == proto_of(d.protocol_number)) by { reveal(v5_record_dec); }
+    lemma_v5_record_dec_fields(v5_record_enc(r), 0);
     // d and r have equal images; make the derived field agree before using injectivity
     let r2 = FlowSet { protocol_type: d.protocol_type, ..r };
     assert(v5_record_enc(r2) == v5_record_enc(r));
     lemma_v5_record_enc_inj(d, r2);
-    assert(d.protocol_number == v5_record_enc(r)[38]) by { reveal(v5_record_dec); }
+    assert(d.protocol_number == v5_record_enc(r)[38]);
 }
 
 } // verus!
